@@ -4,6 +4,7 @@ import Proofs.C12Frame
 import Proofs.C12Vint
 import Proofs.C12Nest
 import Proofs.C12Decode
+import Proofs.C12Hist
 import Model.MarshalInterp
 /-!
 # C12 — encoded values are the CQL specification's encoding, byte for byte; conformant encodings decode
@@ -527,7 +528,7 @@ example : marshalScalar .inet (.ip [0,0,0,0,0,0,0,0,0,0,255,255,10,0,0,1]) = .ok
   have : ipTo4 [0,0,0,0,0,0,0,0,0,0,255,255,10,0,0,1] = some [10, 0, 0, 1] := by decide
   simp [marshalScalar, interpScalar, this]
 
-/-- CONFORMANCE AT EVERY NESTING DEPTH (protocol ≥ 3), by induction on the Go value: for every type tree built from
+/-- CONFORMANCE AT EVERY NESTING DEPTH, EVERY PROTOCOL VERSION (both collection framings), by induction on the Go value: for every type tree built from
     the 21 scalar types with list, set, map and non-empty tuples (`nest`), every Go value all of whose parts are values
     of their Go types (`wf`), documented for that column (`documented`) and outside the exact deviation predicate
     (`excluded`, the open findings): gocql.Marshal returns
@@ -536,14 +537,17 @@ example : marshalScalar .inet (.ip [0,0,0,0,0,0,0,0,0,0,255,255,10,0,0,1]) = .ok
         `specEnc` of the documented meaning `interp`, collection counts, element lengths, −1 for null elements and
         null tuple fields included,
       * or an error (no bytes); never a panic, never an unmodelled combination.
+    Under protocol ≤ 2 (2-byte unsigned counts and lengths, no null element) `excluded` keeps out exactly the
+    collections holding a `nullish` element — untyped nil also behind pointers, typed nil pointer, nil []byte / slice /
+    map (KF-C12-8, `C12_cex_null_element_v2`, `C12_cex_ptr_nil_v2`).
     The element hypotheses of `C12_list_framing` / `C12_tuple_framing` are discharged here by the induction. -/
-theorem C12_marshal_conforms (p : Nat) (hp : p ≥ 3) (t : CqlTy) (g : GoVal) (hn : C12Nest.nest t = true)
+theorem C12_marshal_conforms (p : Nat) (t : CqlTy) (g : GoVal) (hn : C12Nest.nest t = true)
     (hw : C12Nest.wf g) (hd : documented t g = true) (hx : excluded p t g = false) :
     (marshal p t g = .ok none → interp t g = some .null) ∧
     (∀ b, marshal p t g = .ok (some b) → b.length < 2^31 →
       ∃ c, interp t g = some c ∧ c.isNull = false ∧ specEnc p t c = some b) ∧
     marshal p t g ≠ .crash ∧ marshal p t g ≠ .unmodelled := by
-  have h := C12Nest.marshal_conforms p hp t g hn hw hd hx
+  have h := C12Nest.marshal_conforms p t g hn hw hd hx
   refine ⟨fun e => ?_, fun b e hl => ?_, fun e => ?_, fun e => ?_⟩ <;> rw [e] at h
   · exact h
   · exact h hl
@@ -561,7 +565,35 @@ example : ∃ c, interp (.list (.tuple [.text, .int])) (.slice false [.struct [.
     have hm1 : encInt (-1) = [255, 255, 255, 255] := by decide
     simp [marshal, wrapSeq, marshalElems, collSize, collItem, wrapTuple, marshalTupleFields, GoVal.isNilPtr, appendBytes,
       marshalScalar, marshalVarcharColumn, h1, h9, hm1]
-  obtain ⟨c, hc, _, hs⟩ := (C12_marshal_conforms 4 (by decide) _ _ (by decide)
+  obtain ⟨c, hc, _, hs⟩ := (C12_marshal_conforms 4 _ _ (by decide)
+    (by simp [C12Nest.wf, C12Nest.wfAll, C12Nest.wfScalar]) (by decide) (by decide)).2.1 _ hm (by decide)
+  exact ⟨c, hc, hs⟩
+
+/-- KF-C12-8 also behind a pointer: a `*interface{}` holding nil inside a collection under protocol ≤ 2 is written as a
+    zero-length element; the specification has no encoding (no null in the 2-byte framing).  `nullish` (and the
+    harness classifier valgen.Excluded) count it since this round: before, `excluded` tested `v == nil` only and
+    the conformance statement was false for this input.  = replay input `enc 2 map int int map k int ptr iface 1 i int 1 ptr nil` -/
+theorem C12_cex_ptr_nil_v2 :
+    marshal 2 (.map .int .int) (.map false [(.int .int false 1, .ptr .nil)]) = .ok (some [0, 1, 0, 4, 0, 0, 0, 1, 0, 0]) ∧
+    specEnc 2 (.map .int .int) (.map [(.int 1, .null)]) = none ∧
+    excluded 2 (.map .int .int) (.map false [(.int .int false 1, .ptr .nil)]) = true ∧
+    excluded 3 (.map .int .int) (.map false [(.int .int false 1, .ptr .nil)]) = false := by
+  refine ⟨?_, by decide, by decide, by decide⟩
+  have h1 : encShort (toS 16 1) = [0, 1] := by decide
+  have h0 : encShort (toS 16 0) = [0, 0] := by decide
+  have h4 : encShort (toS 16 4) = [0, 4] := by decide
+  have hi : encInt (toS 32 1) = [0, 0, 0, 1] := by decide
+  simp [marshal, wrapSeq, marshalPairs, collSize, collItem, marshalScalar, marshalIntColumn, optM, marshalIntKind, h1, h0, h4, hi]
+
+/-- non-vacuity under protocol 2: set<text> from a slice of strings, 2-byte framing -/
+example : ∃ c, interp (.set .text) (.slice false [.str false [97], .str false []]) = some c ∧
+    specEnc 2 (.set .text) c = some [0, 2, 0, 1, 97, 0, 0] := by
+  have hm : marshal 2 (.set .text) (.slice false [.str false [97], .str false []]) = .ok (some [0, 2, 0, 1, 97, 0, 0]) := by
+    have h2 : encShort (toS 16 2) = [0, 2] := by decide
+    have h1 : encShort (toS 16 1) = [0, 1] := by decide
+    have h0 : encShort (toS 16 0) = [0, 0] := by decide
+    simp [marshal, wrapSeq, marshalElems, collSize, collItem, marshalScalar, marshalVarcharColumn, h2, h1, h0]
+  obtain ⟨c, hc, _, hs⟩ := (C12_marshal_conforms 2 _ _ (by decide)
     (by simp [C12Nest.wf, C12Nest.wfAll, C12Nest.wfScalar]) (by decide) (by decide)).2.1 _ hm (by decide)
   exact ⟨c, hc, hs⟩
 
@@ -584,5 +616,46 @@ example : specDec 4 .decimal [0, 0, 0, 2, 128] = some (.decimal (-128) 2) := by
   have h1 : tcDec [128] = -128 := by decide
   have h2 : tcDec [0, 0, 0, 2] = 2 := by decide
   simp [specDec, minimalTC, h1, h2]
+
+/-! ## histories inside one process: the same Go type marshalled for several type descriptions -/
+
+open MarshalMemo in
+/-- HISTORY INDEPENDENCE, for ALL call sequences: in the process of the code that exists (no state between calls:
+    `pureRun`, the machine op `hist` is answered with, `F` = the specification's answer to the call's own protocol,
+    type description and Go value) the answers to the calls `cs` are the same whatever calls `h` were made before
+    them in the same process — same Go type under other UDT definitions (reordered / renamed / added fields),
+    other tuple arities, other element types — and each is `F` of its own call -/
+theorem C12_history_independent {α β : Type} (F : α → β) (h cs : List α) :
+    (pureRun F () (h ++ cs)).drop h.length = pureRun F () cs ∧ pureRun F () cs = cs.map F := by
+  simp [C12Hist.pureRun_eq]
+
+open MarshalMemo in
+/-- … and for every implementation that REMEMBERS a resolution (struct field ↔ UDT field, …) in per-process state:
+    if every cache hit it accepts gives the stateless answer, all answers of all sequences are the stateless ones -/
+theorem C12_memo_sound {α β ρ κ : Type} [DecidableEq κ] (M : Memo α β ρ κ)
+    (hs : ∀ a a', M.key a' = M.key a → M.valid (M.resolve a') a = true → M.apply (M.resolve a') a = M.direct a)
+    (as : List α) : M.run [] as = as.map M.direct :=
+  C12Hist.memo_run M hs as [] (C12Hist.inv_nil M)
+
+open MarshalMemo in
+/-- non-vacuity: a cache keyed by (UDT field names, struct tags) meets the hypothesis -/
+example (as : List UCall) : soundUdt.run [] as = as.map soundUdt.direct := by
+  apply C12_memo_sound
+  intro a a' hk _
+  simp only [soundUdt, Prod.mk.injEq] at hk
+  simp [Memo.direct, soundUdt, udtResolve, hk.1, hk.2]
+
+open MarshalMemo in
+/-- FULL STATEMENT "every memo is history independent" is false. Kernel-checked: the field resolution cached per
+    (struct type, keyspace, type name) and re-used when the number of fields agrees — the struct {a:10, b:20} for
+    the definition (a, b) and then for the look-alike definition (b, a): the second value is written in the stale
+    order 10 20 instead of 20 10.  Each call alone, or the look-alike first, is right: only a SEQUENCE shows it
+    (= the replay shape of op `hist`) -/
+theorem C12_cex_stale_udt_cache :
+    staleUdt.run [] [([1, 2], [1, 2], [10, 20]), ([2, 1], [1, 2], [10, 20])] = [[10, 20], [10, 20]] ∧
+    [([1, 2], [1, 2], [10, 20]), ([2, 1], [1, 2], [10, 20])].map staleUdt.direct = [[10, 20], [20, 10]] ∧
+    staleUdt.run [] [([2, 1], [1, 2], [10, 20])] = [[20, 10]] ∧
+    soundUdt.run [] [([1, 2], [1, 2], [10, 20]), ([2, 1], [1, 2], [10, 20])] = [[10, 20], [20, 10]] := by
+  decide
 
 end C12
